@@ -79,8 +79,11 @@ func init() {
 	})
 }
 
-// c10Deep builds w = x0 & y0; then depth times w = (w & x[i%8]) ^ y[(i/8)%8]... with
-// 8-bit inputs of two parties and 8 outputs (w ^ x[k]); the AND depth is depth+1.
+// c10Deep builds a non-linear feedback register over two parties' 8-bit
+// inputs: w[i+1] = (w[i] & w[i-1]) ^ w[i-2] ^ in[i%16], started from x0&y0, x1,
+// y1. The state update is a bijection, so the register never forgets: a gate
+// evaluated before its inputs exist (read as 0) leaves a difference that lasts
+// to the outputs (the last eight values, each ^ x[k]). AND depth = depth+1.
 func c10Deep(depth int) *circuit.Circuit {
 	u8 := types.Info{Type: types.TUint, IsConcrete: true, Bits: 8, MinBits: 8}
 	c := &circuit.Circuit{Inputs: circuit.IO{{Name: "x", Type: u8}, {Name: "y", Type: u8}}, Outputs: circuit.IO{{Name: "r", Type: u8}}}
@@ -91,18 +94,19 @@ func c10Deep(depth int) *circuit.Circuit {
 		next++
 		return next - 1
 	}
-	w := add(circuit.AND, 0, 8)
+	w0, w1, w2 := add(circuit.AND, 0, 8), circuit.Wire(1), circuit.Wire(9)
+	var tail []circuit.Wire
 	for i := 0; i < depth; i++ {
-		// x bits 1..7 and y bits 1..7 steer the chain; with all of them 1 the
-		// value alternates, with mixed bits it is data dependent throughout
-		t := add(circuit.AND, w, circuit.Wire(1+i%7))
-		w = add(circuit.XOR, t, circuit.Wire(8+1+(i/7)%7))
-		if i%3 == 0 {
-			w = add(circuit.XOR, w, 0) // x0 = 1 flips the chain every third step
+		t := add(circuit.AND, w0, w1)
+		t = add(circuit.XOR, t, w2)
+		t = add(circuit.XOR, t, circuit.Wire(i%16))
+		w0, w1, w2 = t, w0, w1
+		if i >= depth-8 {
+			tail = append(tail, t)
 		}
 	}
 	for k := 0; k < 8; k++ {
-		add(circuit.XOR, w, circuit.Wire(k))
+		add(circuit.XOR, tail[k], circuit.Wire(k))
 	}
 	c.NumGates = len(c.Gates)
 	c.NumWires = int(next)
@@ -124,12 +128,12 @@ func runC10(cs *vrt.Case) {
 	var inputs []*big.Int
 	var circs []*circuit.Circuit
 	what := "triples"
-	if !triples && cs.Idx == 9 {
-		// one deep hand-made circuit per run: more than 65536 AND levels (one
+	if !triples && (cs.Idx == 9 || cs.Idx == 13 || cs.Idx == 17) {
+		// three deep hand-made circuits per run (different depths and inputs): more than 65536 AND levels (one
 		// communication round each), values kept lively by an XOR per step
 		P = 2
 		what = "deep AND chain"
-		depth := 65536 + 40 + r.Intn(200)
+		depth := 65536 + 300 + r.Intn(3000) // three such cases per run: a misplaced gate shows for most but not all inputs
 		for i := 0; i < P; i++ {
 			circs = append(circs, c10Deep(depth))
 		}
